@@ -163,8 +163,14 @@ func genC06Alloc(r *plan.Rng) *plan.Plan {
 		}
 		emit(r.Range(0, 4), "")
 	}
+	// some ladders end in their own run-time error (after the twin operation)
+	tailStmts := []string{"done := 1"}
+	if !calibrated && r.Chance(1, 6) {
+		tailStmts = []string{"nfz := 5", "nfz(n)", "done := 1"}
+		names = append(names, "ownError")
+	}
 	note(p, "kinds", strings.Join(names, "+"))
-	base := lines(append(body, "done := 1")...)
+	base := lines(append(append([]string{}, body...), tailStmts...)...)
 	// twin: one more operation of kind K appended
 	k := kinds[r.Intn(len(kinds))]
 	id++
@@ -179,7 +185,7 @@ func genC06Alloc(r *plan.Rng) *plan.Plan {
 		kl = append(wrapped, "}", "wrapk()")
 		kname += "/inFunc"
 	}
-	twin := lines(append(append(append([]string{}, body...), kl...), "done := 1")...)
+	twin := lines(append(append(append([]string{}, body...), kl...), tailStmts...)...)
 	note(p, "K", kname)
 	mods := []string{}
 	for _, m := range p.Modules {
